@@ -44,6 +44,8 @@ type Prop struct {
 	// Post runs in the parent after merging (vacuity guards); returning an
 	// error is a harness error (exit 2), never a VIOLATION.
 	Post func(r *Merged) error
+	// Sub, if set, serves `vcheck <ID> --sub args...` (fresh-process helper executions).
+	Sub func(args []string)
 	// Budget per tier (seconds); 0 => defaults.
 	QuickBudget, ThoroughBudget int
 }
@@ -243,6 +245,19 @@ func (w *W) StartWatchdog(limit time.Duration) {
 	}()
 }
 
+// SubRun executes this binary as `<ID> --sub args...` in a fresh process and returns its stdout.
+func SubRun(id string, args ...string) ([]byte, error) {
+	cmd := exec.Command(os.Args[0], append([]string{id, "--sub"}, args...)...)
+	cmd.Env = append(os.Environ(), "TZ=UTC", "VX_WORKER=", "GOMAXPROCS=2")
+	var stderr strings.Builder
+	cmd.Stderr = &stderr
+	out, err := cmd.Output()
+	if err != nil {
+		return out, fmt.Errorf("%v: %s", err, tail(stderr.String(), 2000))
+	}
+	return out, nil
+}
+
 // Hash is FNV-1a 64.
 func Hash(s string) uint64 {
 	h := fnv.New64a()
@@ -311,6 +326,13 @@ func Main() {
 	if p == nil {
 		fmt.Fprintln(os.Stderr, "unknown property", id)
 		os.Exit(2)
+	}
+	if len(args) >= 2 && args[1] == "--sub" {
+		if p.Sub == nil {
+			os.Exit(2)
+		}
+		p.Sub(args[2:])
+		return
 	}
 	if len(args) >= 3 && args[1] == "--replay" {
 		os.Exit(replay(p, args[2]))
